@@ -649,12 +649,16 @@ static Type *array_dimensions(Token **rest, Token *tok, Type *ty) {
 
   if (equal(tok, "]")) {
     ty = type_suffix(rest, tok->next, ty);
+    if (ty->kind == TY_ARRAY && ty->size < 0)
+      error_tok(tok, "array type has incomplete element type");
     return array_of(ty, -1);
   }
 
   Node *expr = conditional(&tok, tok);
   tok = skip(tok, "]");
   ty = type_suffix(rest, tok, ty);
+  if (ty->kind == TY_ARRAY && ty->size < 0)
+    error_tok(tok, "array type has incomplete element type");
 
   if (ty->kind == TY_VLA || !is_const_expr(expr))
     return vla_of(ty, expr);
